@@ -106,6 +106,9 @@ type Case struct {
 	// through *os.File, ply.Load and ply.Save (temp file under /dev/shm)
 	Readers bool `json:"readers,omitempty"`
 	Files   bool `json:"files,omitempty"`
+	// scope "save-over": a sequence of ply.Save calls to one path (saveover.go); SaveFormat = 1 + format index
+	SaveSeq    []int `json:"save_seq,omitempty"`
+	SaveFormat int   `json:"save_format,omitempty"`
 }
 
 // ---------------------------------------------------------------------------------------------
@@ -910,6 +913,9 @@ func run(c *core.Ctx) {
 	// ---- scope L: size ladder (element counts around every power of two) -------------------------
 	k.ladder(next)
 
+	// ---- scope F: ply.Save over an existing file ------------------------------------------------------
+	k.saveSequences(next)
+
 	// ---- scope V: value ladder (every float32 magnitude band in every component) -------------------
 	k.values(next)
 
@@ -1163,6 +1169,10 @@ func replay(c *core.Ctx) {
 	var cs Case
 	if err := json.Unmarshal(c.Replay, &cs); err != nil {
 		c.HarnessError("bad case: %v", err)
+		return
+	}
+	if cs.SaveFormat > 0 {
+		checker{c}.saveOver(cs.SaveSeq, cs.SaveFormat-1)
 		return
 	}
 	checker{c}.eval(cs)
